@@ -20,6 +20,7 @@ import (
 	"k8s.io/apimachinery/pkg/runtime/schema"
 
 	fnv1 "github.com/crossplane/crossplane/apis/apiextensions/fn/proto/v1"
+	v1 "github.com/crossplane/crossplane/apis/apiextensions/v1"
 	"github.com/crossplane/crossplane/verifh/kit"
 	"github.com/crossplane/crossplane/verifh/sim"
 	"github.com/crossplane/crossplane/verifh/xrk"
@@ -37,6 +38,8 @@ type resSpec struct {
 	Val        string `json:"val,omitempty"`
 	// Version of the composed kind the function asks for ("" = v1); the kind is kept
 	Version string `json:"version,omitempty"`
+	// FixedName: the function asks for this metadata.name (several kinds may share it)
+	FixedName string `json:"fixedName,omitempty"`
 }
 
 type phase struct {
@@ -92,6 +95,10 @@ type scenario struct {
 	// reconcile and releases terminating ones one step later, so garbage-collected resources
 	// linger in Terminating state (as managed resources do)
 	Provider bool `json:"provider,omitempty"`
+	// Lag > 0: the XR controller reads composed kinds through an informer cache that is Lag
+	// writes behind the store (a resource it has just created is not in the cache yet) and falls
+	// back to direct reads; faults are then enumerated on the direct reads too
+	Lag int64 `json:"lag,omitempty"`
 }
 
 // providerStep plays the provider: finalize what was terminating at the previous step, put a
@@ -175,6 +182,12 @@ func baseScenarios() []scenario {
 	a2.Version = "v2"
 	ta, tb, tc := ptTemplate("a", "NopA", "1", optPatch), ptTemplate("b", "NopA", "2", nil), ptTemplate("c", "NopB", "3", nil)
 	return []scenario{
+		{Name: "pipe-same-name-three-kinds", Mode: "pipeline", Steps: 1, Phases: []phase{
+			{Desired: []resSpec{{Name: "a", Kind: "NopA", Val: "1", FixedName: "app"}, {Name: "c", Kind: "NopB", Val: "2", FixedName: "app"}, {Name: "e", Kind: "NopC", Val: "3", FixedName: "app"}, {Name: "f", Kind: "NopD", Val: "4", FixedName: "app"}}}}},
+		{Name: "pipe-grow-lagging-cache", Mode: "pipeline", Steps: 1, Lag: 3, Phases: []phase{{Desired: []resSpec{a}}, {Desired: []resSpec{a, b, c}}}},
+		{Name: "pipe-return-lagging-cache", Mode: "pipeline", Steps: 1, Lag: 2, Phases: []phase{{Desired: []resSpec{a, b}}, {Desired: []resSpec{a}}, {Desired: []resSpec{a, b}}}},
+		{Name: "pt-fixed2-lagging-cache", Mode: "pt", Lag: 3, Templates: []map[string]any{ptTemplate("a", "NopA", "1", optPatch), ptTemplate("b", "NopB", "2", nil)},
+			Phases: []phase{{}, {XREdit: map[string]any{"size": int64(7)}}}},
 		{Name: "pipe-version-flip", Mode: "pipeline", Steps: 1, Phases: []phase{{Desired: []resSpec{a, b}}, {Desired: []resSpec{a2, b}}, {Desired: []resSpec{a, b}}}},
 		{Name: "pt-template-removed", Mode: "pt", Templates: []map[string]any{ta, tb, tc},
 			Phases: []phase{{}, {Templates: []map[string]any{ta, tc}}, {Templates: []map[string]any{ta, tb, tc}}}},
@@ -292,6 +305,14 @@ func (r *runner) install(sc *scenario) {
 				o := nopObj(rs.Kind, ns, rs.Val)
 				if rs.Version != "" {
 					o["apiVersion"] = "nop.ex.org/" + rs.Version
+				}
+				if rs.FixedName != "" {
+					md, _ := o["metadata"].(map[string]any)
+					if md == nil {
+						md = map[string]any{}
+						o["metadata"] = md
+					}
+					md["name"] = rs.FixedName
 				}
 				s, err := structpb.NewStruct(o)
 				if err != nil {
@@ -496,6 +517,19 @@ type snapshot struct {
 	world *sim.World
 	phase int
 	calls int
+	// calls issued through the direct (uncached) client; only counted in lagging-cache scenarios
+	ucalls int
+}
+
+// newEnv builds the XR controller for a scenario: with Lag its cached client serves composed
+// kinds from a store Lag writes old and the uncached client reads the store directly.
+func newEnv(w *sim.World, xrd *v1.CompositeResourceDefinition, sc *scenario) *xrk.XREnv {
+	if sc.Lag == 0 {
+		return xrk.NewXREnv(w, xrd)
+	}
+	lag := sc.Lag
+	cached := w.LaggingClient("xr", func(gk schema.GroupKind) (int64, bool) { return lag, gk.Group == "nop.ex.org" })
+	return xrk.NewXREnvSplit(w, xrd, cached, w.Client("xr"))
 }
 
 func (r *runner) runScenario(sc scenario, scIdx int, quickFull bool) {
@@ -511,7 +545,7 @@ func (r *runner) runScenario(sc scenario, scIdx int, quickFull bool) {
 		w := w0.Clone()
 		m := &monitor{created: map[string]map[string]bool{}}
 		w.AddHook(m.hook)
-		env := xrk.NewXREnv(w, xrd)
+		env := newEnv(w, xrd, &sc)
 		for p := range sc.Phases {
 			r.enterPhase(w, &sc, p)
 			for i := 0; i < maxQuiesce; i++ {
@@ -522,6 +556,9 @@ func (r *runner) runScenario(sc scenario, scIdx int, quickFull bool) {
 				from := w.LogLen()
 				_, err, _ := env.Reconcile("xr1")
 				snaps[len(snaps)-1].calls = env.C.Calls()
+				if sc.Lag > 0 {
+					snaps[len(snaps)-1].ucalls = env.UC.Calls()
+				}
 				if sc.Provider {
 					providerStep(w)
 				}
@@ -547,22 +584,36 @@ func (r *runner) runScenario(sc scenario, scIdx int, quickFull bool) {
 	always := sc.alwaysDesired()
 	_ = always
 	for si, sn := range snaps {
-		for k := 0; k < sn.calls; k++ {
-			for _, out := range sim.AllFaults {
+		// fault positions: every call of the (cached) client, and in lagging-cache scenarios every
+		// direct read as well
+		for pos := 0; pos < sn.calls+sn.ucalls; pos++ {
+			k, direct := pos, false
+			if pos >= sn.calls {
+				k, direct = pos-sn.calls, true
+			}
+			for _, out := range sim.EnumFaults {
 				caseName := fmt.Sprintf("%s/r%d/k%d/%s", sc.Name, si, k, out)
+				if direct {
+					caseName = fmt.Sprintf("%s/r%d/direct%d/%s", sc.Name, si, k, out)
+				}
 				if !c.Want(caseName) {
 					continue
 				}
 				w := sn.world.Clone()
 				m := &monitor{created: map[string]map[string]bool{}}
 				w.AddHook(m.hook)
-				env := xrk.NewXREnv(w, xrd)
+				env := newEnv(w, xrd, &sc)
 				r.phase.Store(int32(sn.phase))
 				var trace []string
-				env.C.Fault(k, out)
+				if direct {
+					env.UC.Fault(k, out)
+				} else {
+					env.C.Fault(k, out)
+				}
 				from := w.LogLen()
 				_, err, crashed := env.Reconcile("xr1")
 				env.C.ClearFaults()
+				env.UC.ClearFaults()
 				hit, afterWrite := false, false
 				nchanged := 0
 				for _, e := range w.Log(from) {
@@ -675,7 +726,7 @@ func (r *runner) finishExec(sc *scenario, caseName string, m *monitor, witness f
 func main() {
 	c := kit.New("C01", "fault_enumeration")
 	c.Rule = "fixed scenario shapes (pipeline: fixed/grow/shrink/return/2-step+namespaced; P&T: fixed, required-patch-missing) plus seeded random shapes; for every reconcile of the fault-free run, EVERY API-call index x 6 outcomes (conflict, 500, timeout, crash-before, crash-after, applied-but-504), then fault-free retries to quiescence through all later phases; invariants I1 (live composed resource referenced), I2 (<=1 per name) checked by a post-write hook on every store state, I3 (one metadata.name per always-desired name), I4 (quiescence within 8 reconciles and fixed point). distinct = (scenario, reconcile, call index, outcome); non-trivial = the fault was reached and fell at/after the first effective write of its reconcile or was a crash. Composed-resource apply order follows Go map iteration in the code under test, so call index -> resource is not reproducible across processes; all indices are covered regardless."
-	c.Rule += " Shapes also include desired names whose apiVersion changes between phases (kind kept) and P&T Compositions that lose and regain named templates between phases (new revision, the XR follows), with the same fault enumeration."
+	c.Rule += " Interleave part: two XRs reconciled by ONE reconciler, the first parked before each of its API calls while the second completes; composed resources, references and conditions must equal those of the sequential run. Shapes also include desired names whose apiVersion changes between phases (kind kept) and P&T Compositions that lose and regain named templates between phases (new revision, the XR follows), with the same fault enumeration."
 	c.Assumptions = []string{"sim implements the apiserver rules listed in DESIGN.md 2.2 (SSA through k8s managedfields library)", "functions are deterministic programs of (request, phase)", "one XR; in 'provider' scenarios a provider actor finalizes composed resources one step after they start terminating"}
 	c.Floor = 200
 
@@ -709,6 +760,9 @@ func main() {
 	}
 	close(ch)
 	wg.Wait()
+	if err := kit.Try(func() { runInterleave(c, xrk.Fn(workers*2)) }); err != nil {
+		c.Violate("harness-panic:interleave", "interleave", err.Error(), nil)
+	}
 	c.Exhaustive(false)
 	c.Extra("scenario_names", func() []string {
 		var n []string
